@@ -214,6 +214,8 @@ def assemble(unit_path, variant=None):
             ann["seg_tail"] = text
         elif name == "before":
             ann.setdefault("before_let", {})[arg] = text
+        elif name == "before_stmt":
+            ann.setdefault("before_stmt", {})[arg] = text
         elif name == "after":
             ann.setdefault("after_let", {})[arg] = text
         elif name == "decreases":
@@ -244,7 +246,7 @@ def assemble(unit_path, variant=None):
         d, rest = m.group(1), m.group(2).strip()
         if d != "use":
             flush_groups()
-        if d in ("requires", "ensures", "closure", "loop", "maploop", "forloop", "looptail", "loophead", "head", "tail", "params", "segtail", "before", "after", "replace", "with", "decreases"):
+        if d in ("requires", "ensures", "closure", "loop", "maploop", "forloop", "looptail", "loophead", "head", "tail", "params", "segtail", "before", "before_stmt", "after", "replace", "with", "decreases"):
             close_section()
             if pending is None:
                 raise Inconclusive(f"{unit_path}:{i+1}: //@{d} outside //@fn")
